@@ -83,12 +83,36 @@ pub(crate) fn stub_write_node_plan(_tables: TablesRef, node: Node, _writer: &mut
 		Ok(if r == 0 { None } else { Some(Address::from_u64(r)) })
 	}
 }
+pub(crate) static mut RM_ADDRS: [u64; 3] = [0; 3];
 pub(crate) fn stub_remove_node(_tables: TablesRef, _writer: &mut LogWriter, node_index: Address) -> Result<()> {
 	unsafe {
+		if RM_N < 3 {
+			RM_ADDRS[RM_N] = node_index.as_u64();
+		}
 		RM_N += 1;
 		RM_ADDR = node_index.as_u64();
 	}
 	Ok(())
+}
+// a batch that makes the tree lose two levels: every call of Node::change reports a possible collapse, need_remove_root
+// collapses the root each time, onto the children COLLAPSE_CHILDREN[0] and then [1]
+pub(crate) static mut COLLAPSE_N: usize = 0;
+pub(crate) static mut COLLAPSE_CHILDREN: [u64; 2] = [0; 2];
+pub(crate) fn stub_change_collapsing(this: &mut Node, _parent: Option<(&mut Node, usize)>, _depth: u32, _changes: &mut &[Operation<RcKey, RcValue>], _btree: TablesRef, _log: &mut LogWriter) -> Result<(Option<(Separator, Child)>, bool)> {
+	Ok((None, true))
+}
+pub(crate) fn stub_need_remove_root_twice(_this: &mut Node, _values: TablesRef, _log: &mut LogWriter) -> Result<Option<(Option<Address>, Node)>> {
+	unsafe {
+		if COLLAPSE_N < 2 {
+			let c = COLLAPSE_CHILDREN[COLLAPSE_N];
+			COLLAPSE_N += 1;
+			let mut n = Node::default();
+			n.changed = false;
+			Ok(Some((Some(Address::from_u64(c)), n)))
+		} else {
+			Ok(None)
+		}
+	}
 }
 
 #[kani::proof]
@@ -156,5 +180,54 @@ fn u23_root_bookkeeping() {
 	}
 	kani::cover!(out == 1 && old_root != 0, "split of an existing root");
 	kani::cover!(out == 2 && unsafe { COLLAPSE } && old_root != 0, "collapse");
+	std::mem::forget(changes);
+}
+
+
+#[kani::proof]
+#[kani::unwind(12)]
+#[kani::stub(super::BTree::fetch_root, stub_fetch_root)]
+#[kani::stub(crate::btree::node::Node::change, stub_change_collapsing)]
+#[kani::stub(crate::btree::node::Node::need_remove_root, stub_need_remove_root_twice)]
+#[kani::stub(crate::btree::BTreeTable::write_node_plan, stub_write_node_plan)]
+#[kani::stub(crate::btree::BTreeTable::write_plan_remove_node, stub_remove_node)]
+#[kani::stub(std::hash::RandomState::new, crate::verif_stubs::random_state_new)]
+#[kani::stub(parking_lot::RawRwLock::lock_shared_slow, crate::verif_stubs::lock_shared_slow)]
+#[kani::stub(parking_lot::RawRwLock::unlock_shared_slow, crate::verif_stubs::unlock_shared_slow)]
+#[kani::stub(parking_lot::RawRwLock::lock_exclusive_slow, crate::verif_stubs::lock_exclusive_slow)]
+#[kani::stub(parking_lot::RawRwLock::unlock_exclusive_slow, crate::verif_stubs::unlock_exclusive_slow)]
+#[kani::stub(std::fmt::format, crate::verif_stubs::fmt_format)]
+fn u23_two_collapses_in_one_batch() {
+	let old_root: u64 = kani::any();
+	let (a, b): (u64, u64) = (kani::any(), kani::any());
+	kani::assume(old_root != 0 && a != 0 && b != 0 && a != old_root && b != old_root && a != b);
+	let depth: u32 = kani::any();
+	kani::assume(depth >= 2 && depth < 100);
+	unsafe {
+		COLLAPSE_N = 0;
+		COLLAPSE_CHILDREN = [a, b];
+		WN_N = 0;
+		WN_RET = [0; 3];
+		RM_N = 0;
+		RM_ADDRS = [0; 3];
+	}
+	let mut tree = BTree::new(Some(Address::from_u64(old_root)), depth, 7);
+	let tables: [crate::table::ValueTable; 0] = [];
+	let no = crate::compress::Compress::new(crate::compress::CompressionType::NoCompression, u32::MAX);
+	let tr = TablesRef { tables: &tables, compression: &no, col: 0, preimage: false, ref_counted: false };
+	let overlays: &'static crate::parking_lot::RwLock<crate::log::LogOverlays> = Box::leak(Box::new(crate::parking_lot::RwLock::new(crate::log::LogOverlays::with_columns(0))));
+	let w: &'static mut LogWriter<'static> = Box::leak(Box::new(LogWriter::new(overlays, 7)));
+	let k1: RcKey = Vec::new().into();
+	let k2: RcKey = Vec::new().into();
+	let changes: [Operation<RcKey, RcValue>; 2] = [Operation::Dereference(k1), Operation::Dereference(k2)];
+	let r = ok(tree.write_sorted_changes(&changes, tr, &mut *w));
+	assert!(r.is_some(), "U23.no_error");
+	// the tree lost two levels: both root nodes that were emptied are released, each once, none is left allocated and unreachable
+	assert!(tree.depth == depth - 2, "U23.collapse.depth_shrinks_by_one_per_collapse");
+	assert!(tag(tree.root_index) == b, "U23.collapse.only_child_becomes_root");
+	assert!(unsafe { RM_N } == 2, "U23.collapse.every_emptied_root_node_is_released_exactly_once");
+	let (r0, r1) = unsafe { (RM_ADDRS[0], RM_ADDRS[1]) };
+	assert!((r0 == old_root && r1 == a) || (r0 == a && r1 == old_root), "U23.collapse.every_emptied_root_node_is_released_exactly_once");
+	kani::cover!(true, "reached");
 	std::mem::forget(changes);
 }
